@@ -3,6 +3,7 @@ CONSTANTS Agents = {"a1","a2"}
  NSteps = 2
  AllowCrash = FALSE
  FixStatus = TRUE
+ BindFailUnlinks = FALSE
  ExclusiveBind = FALSE
 INVARIANTS C16_MutexUnlessWindowRace C16_RefusedRecordsNothing
 CHECK_DEADLOCK FALSE
